@@ -27,9 +27,9 @@ def scan_prop(pid, setn, extra_lib):
 
 def ev_prop(pid):
     return {
-        'lib': LIB + ['Spec/Event', 'Check/Ev'],
+        'lib': LIB + ['Spec/Mods', 'Spec/Event', 'Check/EvImpl', 'Check/Ev'],
         'syn': ['Props/%s' % pid], 'needs_syn': ['Syn/Ev', 'Check/Ev'],
-        'ext': ['Props/%s_ext' % pid], 'needs_ext': ['ExtI/Ev', 'Check/Ev'],
+        'ext': ['Props/%s_ext' % pid], 'needs_ext': ['ExtI/Ev', 'Check/EvImpl'],
         'corr': ['Corr/Ev'], 'needs_corr': ['Syn/Ev', 'ExtI/Ev'],
         'cex_ext': 'Cex/%s_ext' % pid, 'cex_syn': 'Cex/%s_syn' % pid,
         'replay_kind': 'evstep',
@@ -176,7 +176,7 @@ PROPS = {
         'trusted_base': ['rustc const checker and trait solver (the deciding judge for this property)'],
     },
     'C08': {
-        'lib': LIB + ['Check/Scan', 'Check/Ps2M', 'Check/Lay', 'Check/Ev', 'Check/C07', 'Check/C08'],
+        'lib': LIB + ['Check/Scan', 'Check/Ps2M', 'Check/Lay', 'Check/EvImpl', 'Check/C07', 'Check/C08'],
         'syn': ['Props/C08'], 'needs_syn': ['Syn/Lay', 'Syn/Ps2', 'Syn/Set1', 'Syn/Set2', 'Syn/Ev', 'Check/C08'],
         'ext': ['Props/C08_ext'], 'needs_ext': ['ExtI/Lay', 'ExtI/Ps2', 'ExtI/Scan', 'ExtI/Ev', 'Check/C08'],
         'corr': ['Corr/Lay', 'Corr/Ps2Words', 'Corr/Ps2Bits', 'Corr/Set1', 'Corr/Set2', 'Corr/Ev'], 'needs_corr': [],
@@ -245,4 +245,29 @@ PROPS = {
         'cex_ext': 'Cex/C05_ext', 'cex_syn': 'Cex/C05_syn',
         'replay_kind': 'word',
     },
+}
+
+
+# concrete cases shown in the evidence (`samples`): the real crate's answer, obtained on this run
+SAMPLES = {
+    'C01': [['replay', 'bytes', 'set2', '224,240,108'], ['replay', 'bytes', 'set2', '225,20,119'], ['replay', 'bytes', 'set2', '170,0,2']],
+    'C02': [['replay', 'bytes', 'set1', '224,71,224,199'], ['replay', 'bytes', 'set1', '30,158,112']],
+    'C03': [['replay', 'layout', 'Uk105Key', 'Key3', '1', 'Ignore'], ['replay', 'layout', 'De105Key', 'Q', '128', 'Ignore'], ['replay', 'layout', 'DVP104Key', 'OemPlus', '0', 'Ignore']],
+    'C04': [['replay', 'evstep', '256', 'Ignore', 'NumpadLock', 'Down'], ['replay', 'evstep', '16', 'Ignore', 'CapsLock', 'Down']],
+    'C05': [['replay', 'word', '1026'], ['replay', 'word', '1027'], ['replay', 'word', '2']],
+    'C06': [['replay', 'bits', '01000000001'], ['replay', 'bits', '0111c01000000001'], ['replay', 'bits', '0100000000001000000001']],
+    'C07': [['replay', 'bytes', 'set2', '224,2,28'], ['replay', 'bytes', 'set1', '225,0,30']],
+    'C08': [['findpanic']],
+    'C09': [['replay', 'layout', 'De105Key', 'Y', '4', 'MapLettersToUnicode'], ['replay', 'layout', 'Azerty', 'Q', '8', 'MapLettersToUnicode']],
+    'C10': [['replay', 'layout', 'De105Key', 'Oem1', '32', 'Ignore'], ['replay', 'layout', 'Azerty', 'M', '32', 'Ignore']],
+    'C11': [['replay', 'layout', 'Uk105Key', 'Key4', '68', 'Ignore'], ['replay', 'layout', 'Uk105Key', 'Key4', '128', 'Ignore']],
+    'C12': [['replay', 'layout', 'De105Key', 'Key7', '128', 'Ignore'], ['replay', 'layout', 'DVP104Key', 'OemPlus', '0', 'Ignore']],
+    'C13': [['replay', 'bytes', 'set2', '224,108'], ['replay', 'bytes', 'set1', '224,71']],
+    'C14': [['replay', 'evstep', '4', 'MapLettersToUnicode', 'A', 'Down'], ['replay', 'evstep', '4', 'MapLettersToUnicode', 'A', 'Up']],
+    'C15': [['replay', 'layout', 'No105Key', 'NumpadPeriod', '16', 'Ignore'], ['replay', 'layout', 'Us104Key', 'Numpad7', '0', 'Ignore']],
+    'C16': [['replay', 'layout', 'Ref.Jis109Key', 'Oem10', '0', 'Ignore'], ['replay', 'layout', 'Any.Azerty', 'F5', '511', 'MapLettersToUnicode']],
+    'C17': [['replay', 'layout', 'Ref.FiSe105Key', 'Oem1', '0', 'Ignore'], ['replay', 'layout', 'FiSe105Key', 'Oem1', '0', 'Ignore']],
+    'C18': [['replay', 'kbd', 'set2;scan=224;mods=16;mode=0;bits=0101;word:0'], ['replay', 'kbd', 'set2;scan=240;mods=16;mode=0;bits=;clear']],
+    'C19': [['replay', 'bytes', 'set2', '224,17,224,240,17'], ['replay', 'bytes', 'set1', '29,157']],
+    'C20': [],
 }
